@@ -214,6 +214,40 @@ class Session:
         for l, r, e, lb in zip(lines, res, exps, labs):
             self.cases.append([l, r, e, lb, model])
         return res
+    def history_pass(self, limit):
+        """Re-run a sample of the deterministic cases sequentially on ONE thread in a shuffled order and in
+        reverse order: every result must equal the result of the first (multi-threaded) run.  Finds behaviour
+        that depends on what the thread or process did before (caches, stale state)."""
+        idx = [i for i, c in enumerate(self.cases) if c[1].draws is None and c[1].status in ("OK", "ERR")]
+        if len(idx) > limit:
+            keep = set(idx[:: max(1, len(idx) // limit)][:limit])
+            # honest (expected-Ok) operations are what fills caches: keep them
+            keep |= set([i for i in idx if self.cases[i][2] == "ok"][:limit])
+            # generator requests are cheap and are where caches live: keep them all
+            keep |= {i for i in idx if self.cases[i][0].split(" ")[0].lstrip("Q") in ("gens",)}
+            idx = sorted(keep)
+        fails = []; n = 0
+        for mode in ("shuffle", "reverse", "forward"):
+            order = list(idx)
+            if mode == "reverse": order.reverse()
+            lines = [self.cases[i][0] for i in order]
+            if not lines: continue
+            self.batch += 1
+            f = os.path.join(WORK, "%s_%d_h%d.cases" % (self.pid, os.getpid(), self.batch))
+            open(f, "w").write("\n".join(lines) + "\n")
+            cmd = [IMPLRUN, f, "--threads", "1", "--timeout", str(self.timeout)]
+            if mode == "shuffle": cmd += ["--shuffle", str(self.seed + 7)]
+            p = subprocess.run(cmd, stdout=subprocess.PIPE, stderr=subprocess.PIPE, text=True)
+            os.remove(f)
+            if p.returncode != 0: raise RuntimeError("implrun failed: " + p.stderr[-2000:])
+            res = _parse_out(p.stdout, len(lines))
+            n += len(lines)
+            for i, r in zip(order, res):
+                if r.core() != self.cases[i][1].core():
+                    fails.append({"label": "history|" + mode, "case": self.cases[i][0], "impl": r.raw[:400],
+                                  "expected": "same result as in the first run: " + self.cases[i][1].raw[:400],
+                                  "detail": "result depends on the calls made before on the same thread (order: %s, single thread)" % mode})
+        return n, fails
     def run_model(self):
         """Run the extracted model on every recorded case (sharded); returns list of Result or None."""
         idx = [i for i, c in enumerate(self.cases) if c[4]]
@@ -236,6 +270,24 @@ class Session:
             rs = _parse_out(so, len(sh_))
             for i, r in zip(sh_, rs): out[i] = r
         return out
+
+STATE_PAT = re.compile(r"\b(thread_local!|lazy_static!|static\s+mut\b|OnceCell|OnceLock|once_cell|static\s+[A-Z_0-9]+\s*:\s*[^=;]*(Mutex|RwLock|Atomic|RefCell|Cell)\b)")
+
+def source_state_scan():
+    """The model is a family of pure functions.  Any process-wide or thread-local mutable state in the
+    library (outside the verification hooks) is something the model does not represent: reported as a
+    broken tie (the history pass then looks for an input sequence on which it matters)."""
+    hits = []
+    src = os.path.join(REPO, "src")
+    for root, _, files in os.walk(src):
+        for f in files:
+            if not f.endswith(".rs") or f == "verif_hooks.rs": continue
+            p = os.path.join(root, f)
+            txt = re.sub(r"//[^\n]*", "", open(p, errors="replace").read())
+            for ln, line in enumerate(txt.split("\n"), 1):
+                if STATE_PAT.search(line):
+                    hits.append("%s:%d: %s" % (os.path.relpath(p, REPO), ln, line.strip()[:100]))
+    return hits
 
 def write_evidence(pid, data):
     os.makedirs(os.path.join(VERIF, "evidence"), exist_ok=True)
